@@ -36,6 +36,11 @@ type opCLICase struct {
 	InSTL bool `json:"in_stl,omitempty"`
 	// Extra: the command line also carries flags that belong to other sub-commands (they have no effect on this one)
 	Extra bool `json:"extra,omitempty"`
+	// Rev: the first input's file name sorts after the second's (zz-in.* and aa-other.*): the order of the -i flags
+	// decides which document is the receiver, not the names
+	Rev bool `json:"rev,omitempty"`
+	// Styled: the SubRip inputs carry inline markup (italics, underline, a font colour) on every line
+	Styled bool `json:"styled,omitempty"`
 }
 
 // ttmlWithDefs renders cues as a TTML document with two styles and a region; tag tells the two files apart.
@@ -66,6 +71,65 @@ func ttmlWithDefs(cues []cueSpec, tag string) []byte {
 
 func init() { register("opcli", checkOpCLI) }
 
+// srtStyledOf is srtOf with inline markup on every line.
+func srtStyledOf(cues []cueSpec) []byte {
+	var sb strings.Builder
+	f := func(ns int64) string {
+		ms := ns / nsMs
+		return fmt.Sprintf("%02d:%02d:%02d,%03d", ms/3600000, ms/60000%60, ms/1000%60, ms%1000)
+	}
+	for i, c := range cues {
+		fmt.Fprintf(&sb, "%d\n%s --> %s\n", i+1, f(c.S), f(c.E))
+		for j, l := range strings.Split(textKey(c.T), "|") {
+			switch (i + j) % 3 {
+			case 0:
+				fmt.Fprintf(&sb, "<i>%s</i> x\n", l)
+			case 1:
+				fmt.Fprintf(&sb, "<font color=\"#ff0000\">%s</font> <u>y</u>\n", l)
+			default:
+				fmt.Fprintf(&sb, "<b>%s</b>\n", l)
+			}
+		}
+		sb.WriteString("\n")
+	}
+	return []byte(sb.String())
+}
+
+// fixedCLICases are the steps every run takes whatever the random cases are: file names whose order differs from the
+// order of the -i flags, styled inputs written to every kind of output, shifts by exactly one day in both directions.
+func fixedCLICases(sub string) []opCLICase {
+	h := int64(time.Hour)
+	two := []cueSpec{{S: 0, E: 1000 * nsMs, T: "a"}, {S: 1000 * nsMs, E: 2000 * nsMs, T: "a|b"}, {S: 1500 * nsMs, E: 2500 * nsMs, T: "b"}}
+	var out []opCLICase
+	switch sub {
+	case "merge":
+		oth := []cueSpec{{S: 0, E: 500 * nsMs, T: "c"}, {S: 1000 * nsMs, E: 1200 * nsMs, T: "c"}, {S: 1500 * nsMs, E: 2500 * nsMs, T: "a"}}
+		for _, ext := range []string{"srt", "ttml", "vtt"} {
+			out = append(out, opCLICase{Sub: sub, Cues: two, Other: oth, Ext: ext, Rev: true})
+			out = append(out, opCLICase{Sub: sub, Cues: two, Other: oth, Ext: ext, Rev: true, Styled: true})
+		}
+		out = append(out, opCLICase{Sub: sub, Cues: two, Other: oth, Ext: "ttml", Rev: true, Defs: true})
+		out = append(out, opCLICase{Sub: sub, Cues: nil, Other: oth, Ext: "ttml", Rev: true, Defs: true})
+		out = append(out, opCLICase{Sub: sub, Cues: two, Other: oth, Ext: "srt", Rev: true, InSTL: true})
+	case "sync":
+		long := []cueSpec{{S: 0, E: 1000 * nsMs, T: "a"}, {S: 25 * h, E: 25*h + 1000*nsMs, T: "b"}, {S: 49 * h, E: 49*h + 1, T: "a|b"}}
+		for _, d := range []int64{24 * h, -24 * h, 48 * h, -48 * h, 24*h + nsMs, 24*h - nsMs, -24*h - nsMs, -24*h + nsMs, 100 * h, -100 * h} {
+			for _, ext := range []string{"srt", "vtt", "ttml"} {
+				out = append(out, opCLICase{Sub: sub, Cues: long, D: d, Ext: ext})
+			}
+		}
+		out = append(out, opCLICase{Sub: sub, Cues: two, D: 24 * h, Ext: "srt", Styled: true})
+	default:
+		for _, ext := range []string{"srt", "stl", "vtt", "ttml", "ssa", "SRT", "STL"} {
+			c := opCLICase{Sub: sub, Cues: two, Ext: ext, Styled: true, D: 700 * nsMs, A1: 1000 * nsMs, D1: 2000 * nsMs, A2: 3000 * nsMs, D2: 5000 * nsMs}
+			out = append(out, c)
+			c.Defs = true
+			out = append(out, c)
+		}
+	}
+	return out
+}
+
 func srtOf(cues []cueSpec) []byte {
 	var sb strings.Builder
 	f := func(ns int64) string {
@@ -90,6 +154,9 @@ func checkOpCLI(c opCLICase) string {
 	defer os.RemoveAll(dir)
 	in, other := filepath.Join(dir, "in.srt"), filepath.Join(dir, "other.srt")
 	inDoc, otherDoc := srtOf(c.Cues), srtOf(c.Other)
+	if c.Styled {
+		inDoc, otherDoc = srtStyledOf(c.Cues), srtStyledOf(c.Other)
+	}
 	if c.Defs {
 		in, other = filepath.Join(dir, "in.ttml"), filepath.Join(dir, "other.ttml")
 		inDoc, otherDoc = ttmlWithDefs(c.Cues, "A"), ttmlWithDefs(c.Other, "B")
@@ -123,6 +190,9 @@ func checkOpCLI(c opCLICase) string {
 			in, other = filepath.Join(dir, "in.stl"), filepath.Join(dir, "other.stl")
 			inDoc, otherDoc = a, b
 		}
+	}
+	if c.Rev {
+		in, other = filepath.Join(dir, "zz-"+filepath.Base(in)), filepath.Join(dir, "aa-"+filepath.Base(other))
 	}
 	if os.WriteFile(in, inDoc, 0o644) != nil || os.WriteFile(other, otherDoc, 0o644) != nil {
 		return ""
@@ -204,6 +274,12 @@ func cliCases(t *testing.T, pid, sub string) {
 	if os.Getenv("VERIF_CLI") == "" {
 		return
 	}
+	if cfgShard == 0 {
+		for _, c := range fixedCLICases(sub) {
+			ev.Case(true, fmt.Sprintf("%v", c), "cli-"+sub+"-fixed")
+			verdict(t, pid, "opcli", c, checkOpCLI)
+		}
+	}
 	rapidCheck(t, pid+"/cli-"+sub, tier(24, 600), func(rt *rapid.T) {
 		maxT := rapid.SampledFrom([]int64{20 * nsMs, 5000 * nsMs, 3600 * 1000 * nsMs}).Draw(rt, "range")
 		ms := func(cs []cueSpec) []cueSpec {
@@ -256,6 +332,8 @@ func cliCases(t *testing.T, pid, sub string) {
 			// precondition of both operations in their properties: start-ordered lists for fragment; any for unfragment
 			sortCues(c.Cues)
 		}
+		c.Rev = rapid.Bool().Draw(rt, "revnames")
+		c.Styled = rapid.IntRange(0, 2).Draw(rt, "styledinputs") == 0
 		ev.Case(true, fmt.Sprintf("%v", c), "cli-"+sub)
 		ev.Sample("cli-"+sub, c)
 		verdict(rt, pid, "opcli", c, checkOpCLI)
